@@ -52,7 +52,6 @@ def replay_instances(ctx):
     if ctx.tier == "thorough":
         out += [
             inst("basic-nopush-t3", push=False, maxtbl=3),
-            inst("basic-push-t3", push=True, maxtbl=3),
             inst("basic-2streams-r3", slots=2, entries="MCEntriesSmall"),
             inst("basic-2streams-push", push=True, slots=2, reqs="MCReqs2"),
             inst("blank-t3", host="blank", maxtbl=3),
@@ -65,10 +64,10 @@ def replay_instances(ctx):
 def exhaustive_instances(ctx):
     """Bigger instances checked exhaustively only."""
     if ctx.tier == "thorough":
-        return [inst("big-2streams-t3", slots=2, maxtbl=3), inst("big-2streams-t3-push", push=True, slots=2, maxtbl=3),
+        return [inst("big-2streams-t3", slots=2, maxtbl=3),
                 inst("big-2streams-t4", slots=2, maxtbl=4, reqs="MCReqs2"), inst("big-1stream-t4", maxtbl=4),
                 inst("big-bidir-2streams", bidir=True, slots=2, maxtbl=1, reqs="MCReqs2ab", entries="MCEntriesBi", tokens="MCTokens1")]
-    return [inst("big-2streams-q", slots=2, maxtbl=2)]
+    return [inst("big-2streams-q", slots=2, maxtbl=2, reqs="MCReqs2")]
 
 
 def _cfg(consts, replace=None):
@@ -86,7 +85,8 @@ def _cfg(consts, replace=None):
 
 def _exhaustive(args):
     ctx, (name, consts, _meta) = args
-    r = tlc.run(ctx, "C07_MC", "gen_%s_mc.cfg" % name, cfg_text=_cfg(consts), workers=2, timeout=1500, name="mc" + name)
+    r = tlc.run(ctx, "C07_MC", "gen_%s_mc.cfg" % name, cfg_text=_cfg(consts), workers=1,
+                timeout=1500, name="mc" + name)
     if not r.ok:
         raise MachineryError("design-level failure in C07 %s: %s violated\n%s" % (name, r.violated, r.out[-2500:]))
     return name, r.distinct, r.generated, r.wall
@@ -208,9 +208,9 @@ def run(ctx):
     beh_dir = ctx.sub("beh")
     rinsts = replay_instances(ctx)
     einsts = exhaustive_instances(ctx)
-    # at most 4 TLC workers at a time: one exhaustive lane (2 workers), two printing lanes (1 worker each); the
+    # at most 4 TLC workers at a time: one exhaustive lane and three printing lanes with 1 worker each; the
     # concurrent run (and with it the build of the test binary) proceeds meanwhile
-    with cf.ProcessPoolExecutor(max_workers=1) as pe, cf.ProcessPoolExecutor(max_workers=2) as pr, \
+    with cf.ProcessPoolExecutor(max_workers=1) as pe, cf.ProcessPoolExecutor(max_workers=3) as pr, \
             cf.ProcessPoolExecutor(max_workers=1) as pc:
         fc = pc.submit(_concurrent, ctx)
         fe = [pe.submit(_exhaustive, (ctx, i)) for i in einsts]
